@@ -63,7 +63,7 @@ static const char *ename(int e) {
     case ENOSPC: return "ENOSPC"; case EMFILE: return "EMFILE"; case ESTALE: return "ESTALE";
     case EINVAL: return "EINVAL"; case ENAMETOOLONG: return "ENAMETOOLONG"; case EPERM: return "EPERM";
     case ENOTEMPTY: return "ENOTEMPTY"; case EXDEV: return "EXDEV"; case EBADF: return "EBADF";
-    case EOPNOTSUPP: return "EOPNOTSUPP"; case ELOOP: return "ELOOP"; case EROFS: return "EROFS";
+    case EOPNOTSUPP: return "EOPNOTSUPP"; case ELOOP: return "ELOOP"; case EROFS: return "EROFS"; case EINTR: return "EINTR";
     default: { static __thread char b[16]; snprintf(b, sizeof b, "E%d", e); return b; }
     }
 }
@@ -74,7 +74,7 @@ static int eval(const char *s) {
     if (!strcmp(s, "ENOSPC")) return ENOSPC; if (!strcmp(s, "EMFILE")) return EMFILE;
     if (!strcmp(s, "ESTALE")) return ESTALE; if (!strcmp(s, "EINVAL")) return EINVAL;
     if (!strcmp(s, "EPERM")) return EPERM; if (!strcmp(s, "EXDEV")) return EXDEV;
-    if (!strcmp(s, "EROFS")) return EROFS;
+    if (!strcmp(s, "EROFS")) return EROFS; if (!strcmp(s, "EINTR")) return EINTR;
     return atoi(s);
 }
 
@@ -219,6 +219,17 @@ int close(int fd) {
     int se = errno;
     logf_(n, "close %d<%s> = %d %s", fd, E(fdp(fd)), r, ename(r < 0 ? se : 0));
     fdtab_set(fd, NULL);
+    if (e) {
+        /* KSHIM_PEER_OPENS: after a close that released the descriptor but reported a failure, another
+           thread of the process opens this file; it is given the lowest free number, i.e. the one just
+           released.  The peer's descriptor is tracked, so that whatever the caller does to it is logged. */
+        const char *peer = getenv("KSHIM_PEER_OPENS");
+        if (peer && *peer) {
+            char pb[4096]; snprintf(pb, sizeof pb, "%s/%s", root ? root : "", peer);
+            in_shim++; int v = (int)syscall(SYS_openat, AT_FDCWD, pb, O_RDONLY, 0); in_shim--;
+            if (v >= 0) { fdtab_set(v, pb); logf_(n, "peeropen %s = %d", E(pb), v); }
+        }
+    }
     errno = se; return r;
 }
 
